@@ -180,20 +180,20 @@ theorem nodownload_no_fetch (cfg : Cfg) (env : Env) (flt : Faults) (hnd : cfg.no
   have := resolve_gate cfg env flt _ hmem
   simp [GateEv, hnd] at this
 
-/-- **A failed patch/diff step removes the freshly unpacked directory.** -/
-theorem failed_patch_removes_dir (cfg : Cfg) (env : Env) (flt : Faults)
-    (hp : (resolve cfg env flt).phase = .patch) :
+/-- **A failed acquisition, unpack, patch or diff step removes the freshly created directory.** -/
+theorem failed_step_removes_dir (cfg : Cfg) (env : Env) (flt : Faults)
+    (hp : (resolve cfg env flt).phase = .patch ∨ (resolve cfg env flt).phase = .acquire) :
     (resolve cfg env flt).ok = false ∧ (resolve cfg env flt).st.dirExists = false ∧
     (resolve cfg env flt).st.dirBuild = false ∧ Event.rmtree ∈ (resolve cfg env flt).st.trace := by
   unfold resolve at hp ⊢
   simp only [] at hp ⊢
   have hfin : ∀ s, (finish s).phase = .final := by intro s; unfold finish; split <;> rfl
   split at hp
-  · cases hp
+  · rcases hp with hp | hp <;> cases hp
   · split at hp
     · split at hp
-      · cases hp
-      · rw [hfin] at hp; cases hp
+      · rcases hp with hp | hp <;> cases hp
+      · rw [hfin] at hp; rcases hp with hp | hp <;> cases hp
     · rename_i h1 h2
       simp only [h1, h2]
       generalize acquire cfg env flt (initSt env) = acq at hp ⊢
@@ -201,29 +201,65 @@ theorem failed_patch_removes_dir (cfg : Cfg) (env : Env) (flt : Faults)
       · simp only [] at hp ⊢
         generalize patchPhase cfg env flt s1 = pr at hp ⊢
         rcases pr with ⟨u2, s2⟩ | ⟨e2, s2⟩
-        · simp only [] at hp; rw [hfin] at hp; cases hp
+        · simp only [] at hp; rw [hfin] at hp; rcases hp with hp | hp <;> cases hp
         · simp [cleanup, St.log]
-      · cases hp
+      · simp [cleanup, St.log]
 
-/-- ... so that no later run accepts a half-prepared subproject: the next run (any faults) does not
-take the "directory with a build file is already there" exit, it has to acquire and patch again. -/
-theorem failed_patch_not_accepted_later (cfg : Cfg) (env : Env) (flt flt' : Faults)
+/-- the statement of C10 for the patch/diff step -/
+theorem failed_patch_removes_dir (cfg : Cfg) (env : Env) (flt : Faults)
     (hp : (resolve cfg env flt).phase = .patch) :
-    (resolve cfg (nextEnv env (resolve cfg env flt).st) flt').phase ≠ .early := by
-  have h := failed_patch_removes_dir cfg env flt hp
+    (resolve cfg env flt).ok = false ∧ (resolve cfg env flt).st.dirExists = false ∧
+    (resolve cfg env flt).st.dirBuild = false ∧ Event.rmtree ∈ (resolve cfg env flt).st.trace :=
+  failed_step_removes_dir cfg env flt (Or.inl hp)
+
+/-- every failed run that started without the directory ends without it: whatever step failed
+(fetch, verify, unpack, patch, diff, or the missing build file is the only exception: nothing to accept) -/
+theorem failed_run_leaves_nothing_acceptable (cfg : Cfg) (env : Env) (flt : Faults)
+    (hne : env.dirExists = false) (hfail : (resolve cfg env flt).ok = false) :
+    (resolve cfg env flt).st.dirBuild = false := by
+  unfold resolve at hfail ⊢
+  simp only [initSt, hne] at hfail ⊢
+  simp at hfail ⊢
+  generalize acquire cfg env flt _ = acq at hfail ⊢
+  rcases acq with ⟨u, s1⟩ | ⟨e, s1⟩
+  · simp only [] at hfail ⊢
+    generalize patchPhase cfg env flt s1 = pr at hfail ⊢
+    rcases pr with ⟨u2, s2⟩ | ⟨e2, s2⟩
+    · simp only [] at hfail ⊢
+      unfold finish at hfail ⊢
+      split at hfail
+      · rename_i hb
+        have hb' : s2.dirBuild = false := by simpa using hb
+        simp [hb']
+      · simp at hfail
+    · simp [cleanup, St.log]
+  · simp [cleanup, St.log]
+
+/-- ... so that no later run accepts a half-prepared subproject: after any failed run that started
+without the directory, the next run (any faults) does not take the "directory with a build file is
+already there" exit with success. -/
+theorem failed_run_not_accepted_later (cfg : Cfg) (env : Env) (flt flt' : Faults)
+    (hne : env.dirExists = false) (hfail : (resolve cfg env flt).ok = false) :
+    ¬ ((resolve cfg (nextEnv env (resolve cfg env flt).st) flt').phase = .early ∧
+       (resolve cfg (nextEnv env (resolve cfg env flt).st) flt').ok = true) := by
+  have h := failed_run_leaves_nothing_acceptable cfg env flt hne hfail
   generalize (resolve cfg env flt).st = s at h
   have hfin : ∀ s, (finish s).phase = .final := by intro s; unfold finish; split <;> rfl
   unfold resolve
-  simp only [initSt, nextEnv, h.2.1, h.2.2.1]
+  simp only [initSt, nextEnv, h]
   simp
-  generalize acquire _ _ _ _ = acq
-  rcases acq with ⟨u, s1⟩ | ⟨e, s1⟩
-  · simp only []
-    generalize patchPhase _ _ _ _ = pr
-    rcases pr with ⟨u2, s2⟩ | ⟨e2, s2⟩
-    · simp only []; rw [hfin]; simp
+  by_cases hd : s.dirExists = true
+  · simp only [hd, if_true]
+    intro hph; rw [hfin] at hph; cases hph
+  · simp only [hd, if_false]
+    generalize acquire _ _ _ _ = acq
+    rcases acq with ⟨u, s1⟩ | ⟨e, s1⟩
+    · simp only []
+      generalize patchPhase _ _ _ _ = pr
+      rcases pr with ⟨u2, s2⟩ | ⟨e2, s2⟩
+      · simp [hfin]
+      · simp
     · simp
-  · simp
 
 /-! non-vacuity: concrete runs -/
 
@@ -247,7 +283,7 @@ example : (resolve (urlCfg false) (urlEnv [] goodC) noFaults).ok = true
       (List.replicate 1 (Event.fetch .source false)) ++ [.fetch .source true, .cacheStore .source 1, .used .source 1] := by decide
 /-- the same under nodownload: an error, and nothing fetched -/
 example : (resolve (urlCfg true) (urlEnv [] goodC) noFaults).ok = false
-    ∧ (resolve (urlCfg true) (urlEnv [] goodC) noFaults).st.trace = [] := by decide
+    ∧ (resolve (urlCfg true) (urlEnv [] goodC) noFaults).st.trace = [.rmtree] := by decide
 /-- a diff that does not apply: phase `patch`, directory removed -/
 example : (resolve (urlCfg false) (urlEnv [⟨true, false⟩] goodC) noFaults).phase = .patch
     ∧ (resolve (urlCfg false) (urlEnv [⟨true, false⟩] goodC) noFaults).st.dirExists = false := by decide
